@@ -10,6 +10,7 @@ import (
 	"github.com/pion/turn/v5"
 	"github.com/pion/turn/v5/verifharness/sim"
 	"github.com/pion/turn/v5/verifharness/simnet"
+	"github.com/pion/turn/v5/verifharness/wire"
 )
 
 // C20: the bundled relay address generators honour their configuration. They run over the
@@ -82,6 +83,105 @@ func portOf(a net.Addr) (net.IP, int) {
 	}
 
 	return nil, -1
+}
+
+// runC20Server: the port-range generator behind a running server. Whatever the clients ask for
+// (plain Allocate, EVEN-PORT with and without the reserve bit, UDP and TCP allocations), every
+// relayed address the server hands out lies in the configured range, carries the configured relay
+// IP, and is not shared between live allocations.
+func runC20Server(t *testing.T, rng *rand.Rand, rec *sim.Rec, tier string, caseNo int) {
+	lo := 1024 + rng.Intn(60000)
+	width := rng.Intn(7)
+	hi := lo + width
+	retries := pick(rng, []int{0, 40, 200})
+	grng := rand.New(rand.NewSource(rng.Int63()))
+	cfg := sim.Config{
+		Realm: "verif.test", Users: map[string]string{"alice": "pw-a", "bob": "pw-b"},
+		UDPListeners: []*net.UDPAddr{{IP: sim.ServerIP4, Port: 3478}},
+		TCPListeners: []*net.TCPAddr{{IP: sim.ServerIP4, Port: 3478}},
+		MakeGen: func(n *simnet.Net) turn.RelayAddressGenerator {
+			return &turn.RelayAddressGeneratorPortRange{
+				RelayAddress: sim.RelayIP4, Address: "0.0.0.0", MinPort: uint16(lo), MaxPort: uint16(hi), MaxRetries: retries,
+				Rand: &scriptRand{mode: "prng", rng: grng}, Net: &simnet.VNet{N: n, HostIP4: sim.RelayIP4},
+			}
+		},
+	}
+	w, err := sim.NewWorld(cfg, rec, rng, true)
+	if err != nil {
+		t.Fatal(err)
+	}
+	defer w.Shutdown()
+	m := sim.NewModel(w)
+	m.RelayMayRunOut = true
+	granted, refused := 0, 0
+	steps := 6 + rng.Intn(14)
+	var live []*sim.RawClient
+	for i := 0; i < steps && len(rec.Violations()) == 0; i++ {
+		rec.SetStep(i)
+		if len(live) > 0 && rng.Intn(3) == 0 {
+			k := rng.Intn(len(live))
+			zero := uint32(0)
+			m.Refresh(live[k], &zero)
+			live = append(live[:k], live[k+1:]...)
+
+			continue
+		}
+		var c *sim.RawClient
+		tcp := rng.Intn(4) == 0
+		if tcp {
+			c, err = w.NewTCPClient(fmt.Sprintf("t%d", i), net.IPv4(10, 1, 2, byte(1+i)).To4(), 6000+i, 0, pick(rng, []string{"alice", "bob"}))
+		} else {
+			c, err = w.NewUDPClient(fmt.Sprintf("c%d", i), net.IPv4(10, 1, 2, byte(1+i)).To4(), 5000+i, 0, pick(rng, []string{"alice", "bob"}))
+		}
+		if err != nil {
+			t.Fatal(err)
+		}
+		o := sim.AllocOpts{}
+		how := "plain"
+		if tcp {
+			o.Transport = 6
+			how = "tcp"
+		} else if r := rng.Intn(5); r < 2 {
+			rbit := r == 1
+			o.EvenPort = &rbit
+			how = fmt.Sprintf("even-port/reserve=%v", rbit)
+		}
+		resp := m.Allocate(c, o)
+		if resp == nil || resp.Class != wire.ClassSuccess {
+			refused++
+			rec.FP("server/%s/refused-%d/width=%d/live=%d", how, codeOfMsg(resp), width, min(len(live), 8))
+			busy := 0
+			for p := lo; p <= hi; p++ {
+				if (tcp && w.Net.TCPListening(sim.RelayIP4, p)) || (!tcp && w.Net.UDPBound(sim.RelayIP4, p)) {
+					busy++
+				}
+			}
+			if busy == 0 && o.EvenPort == nil {
+				rec.Violate("gen-spurious-error", "server/all-free", "server with port range [%d,%d] (MaxRetries %d): %s Allocate answered %d although every port of the range is free", lo, hi, retries, how, codeOfMsg(resp))
+			}
+
+			continue
+		}
+		relay, ok := sim.RelayAddrOf(resp)
+		if !ok {
+			continue // (the model has reported it)
+		}
+		granted++
+		if relay.Port < lo || relay.Port > hi {
+			rec.Violate("gen-port-out-of-range", "server/"+how, "server with port range [%d,%d]: %s Allocate was given relayed port %d", lo, hi, how, relay.Port)
+		}
+		if !relay.IP.Equal(sim.RelayIP4) {
+			rec.Violate("gen-advertised-ip", "server/"+how, "server with relay address %s: %s Allocate was given %s", sim.RelayIP4, how, relay)
+		}
+		if o.EvenPort != nil && relay.Port%2 != 0 {
+			rec.Violate("gen-requested-port", "server/"+how, "EVEN-PORT Allocate was given odd relayed port %d", relay.Port)
+		}
+		live = append(live, c)
+		rec.FP("server/%s/granted/width=%d/parity-lo=%d/live=%d", how, width, lo%2, min(len(live), 8))
+	}
+	rec.EvN("server-allocations-granted", granted)
+	rec.EvN("server-allocations-refused", refused)
+	rec.SetSample(map[string]any{"kind": "server", "range": []int{lo, hi}, "max_retries": retries, "granted": granted, "refused": refused})
 }
 
 func runC20(t *testing.T, rng *rand.Rand, rec *sim.Rec, tier string, caseNo int) {
@@ -270,6 +370,18 @@ func runC20(t *testing.T, rng *rand.Rand, rec *sim.Rec, tier string, caseNo int)
 				// the range generator may give up after MaxRetries occupied draws; it must not when
 				// the scripted source pointed at a free port
 				rec.Ev("range-exhausted-or-unlucky")
+				if hi-lo < 4096 {
+					busy := 0
+					for p := lo; p <= hi; p++ {
+						if inUse(p) {
+							busy++
+						}
+					}
+					if busy == 0 {
+						// every draw of the random source points at a free port
+						rec.Violate("gen-spurious-error", "range/all-free", "range generator [%d,%d] (MaxRetries %d, %s) failed although every port of the range is free: %v", lo, hi, gut.retries, netw(tcp), err)
+					}
+				}
 			}
 
 			continue
@@ -451,6 +563,11 @@ func init() {
 		Run: func(t *testing.T, rng *rand.Rand, rec *sim.Rec, tier string, caseNo int) {
 			if caseNo%10 == 9 {
 				runC20Real(t, rng, rec, tier, caseNo/10)
+
+				return
+			}
+			if caseNo%10 == 8 {
+				inBubble(t, func(t *testing.T) { runC20Server(t, rng, rec, tier, caseNo/10) })
 
 				return
 			}
